@@ -120,7 +120,7 @@ def errk(e):
 
 def env_term(T, c):
     wrap = '(Err %s)' % errk(c['wrap_err']) if c.get('wrap_err') else '(Ok %s)' % T.msg(c['w'])
-    return '(EnvC %s %s %s [85]%%N %s %s %s)' % (T.hx(c['dest']), T.msg(c['m']), T.obytes(c['libenc']), wrap, env_of(T, c.get('libdec')), unw_res(T, c.get('unwrap')))
+    return '(EnvC %s %s %s [85]%%N %s %s %s %s)' % (T.hx(c['dest']), T.msg(c['m']), T.obytes(c['libenc']), wrap, env_of(T, c.get('libdec')), unw_res(T, c.get('unwrap')), B(c['valid_utf8']))
 
 def unw_term(T, c):
     return '(UnwC %s %s %s)' % (T.obytes(c['p']), env_of(T, c['libdec']), unw_res(T, c['got']))
@@ -167,6 +167,9 @@ def rp_term(T, c):
 def ru_term(T, c):
     return '(RuC %s %s %s)' % (T.msg(c['m']), lib_dec(T, c['rdec'], False), rp_obs(T, c))
 
+def u8_term(T, c):
+    return '(U8C %s %s)' % (T.hx(c['s']), B(c['valid']))
+
 FAMILIES = {
     # key: (case type, term builder, [(result name, Gallina function, role)], chunk size, what)
     'eq':  ('eq_case', eq_term, [('mis', 'eq_mismatches', 'm'), ('vio', 'eq_violations', 'v'), ('pin', 'eq_pinned_diffs', 'i')], 400,
@@ -184,6 +187,7 @@ FAMILIES = {
     'nfm': ('nfm_case', nfm_term, [('mis', 'nfm_mismatches', 'm')], 200, 'NameFromMessage on arbitrary messages'),
     'rp':  ('rp_case', rp_term, [('mis', 'rp_mismatches', 'm'), ('vio', 'rp_violations', 'v')], 250, 'BackendPubsubJSONMarshaler MarshalReply then UnmarshalReply'),
     'ru':  ('ru_case', ru_term, [('mis', 'ru_mismatches', 'm')], 200, 'UnmarshalReply on arbitrary messages'),
+    'u8':  ('u8_case', u8_term, [('mis', 'u8_mismatches', 'm')], 2000, 'utf8_valid (Gallina) against utf8.Valid (Go): boundary sweep + mutated strings'),
 }
 
 def unhex_deep(x):
@@ -286,7 +290,7 @@ def run_once(ctx, res, seed, scale, big, tag):
                 if c.get('msg'): res.nontrivial.add(('cq', c['kind'], c['nofb'], c['ts'], c['v'], c['gen'], c['cfguuid']))
             elif fam == 'rp':
                 if c.get('msg'): res.nontrivial.add(('rp', c['type'], c['res'], c['errtext']))
-            elif fam in ('unw', 'ru', 'nfm'):
+            elif fam in ('unw', 'ru', 'nfm', 'u8'):
                 res.nontrivial.add((fam, json.dumps(c, sort_keys=True)))
     if not res.samples:
         res.sample(dict(family='eq', case=unhex_deep(data['eq'][0])))
